@@ -267,6 +267,7 @@ class _State(object):
         self.case = case
         self.U = _universe(case['net'], case['salt'])
         self.U.novalue = case.get('novalue')
+        self.U.spent_unknown = bool(case.get('spent_unknown'))
         self.counters = {}
         self.log = []
         self.outage = False
@@ -471,9 +472,10 @@ def _lib_tx(U, txidx, i, confirmed=True):
             # what providers that do not know the value of a foreign previous output deliver
             inp.value = 0
     for n, o in enumerate(tx.outputs):
-        if t['outs'][n]['address'] in U.addr:
+        if t['outs'][n]['address'] in U.addr and not getattr(U, 'spent_unknown', False):
             o.spent = U.spent_truth(txidx, n)
         else:
+            # (providers that deliver transactions without spent information: every output "unknown")
             o.spent = None
     tx.update_totals()
     return tx
@@ -758,6 +760,7 @@ class _Run(object):
         _ST.case = c2
         _ST.U = _universe(c2['net'], c2['salt'])
         _ST.U.novalue = c2.get('novalue')
+        _ST.U.spent_unknown = bool(c2.get('spent_unknown'))
         self.m_fee, self.m_fee_fb, self.m_bc = {}, {}, []
         self.m_tx, self.m_bal, self.m_addr_known, self.lied_empty = set(), {}, set(), set()
         self.m_blk = False
@@ -1733,6 +1736,15 @@ def cache_scenarios(ctx):
                     out.append(([m], [q(m, addr=addr, after=-1, limit=20)] + mid(0, False, reopen) +
                                 [q(m, addr=addr, after=-1, limit=20), q('getbalance', addrs=[addr]),
                                  q('addrinfo', addr=addr)], True, None, 4, {'novalue': tx}))
+    # transactions delivered without spent information (unknown for every output), then the spent status of their
+    # outputs is asked for: unknown is not an answer
+    for tx in range(3):
+        for first in (q('gettransaction', tx=tx), q('getblock', parse=True, limit=10),
+                      q('gettransactions', addr=0, after=-1, limit=20)):
+            for reopen in tf:
+                out.append((['gettransaction', 'isspent'], [first] + mid(0, False, reopen) +
+                            [q('isspent', tx=tx, n=0), q('isspent', tx=tx, n=1)], True, None, 4,
+                            {'spent_unknown': True}))
     # fee estimate while every provider is down (documented default), then again when they are back
     for blocks in (1, 3, 25):
         for dt in (1, 599, 601):
@@ -1885,7 +1897,8 @@ def plan_strategy(ctx, cached):
                 'max_errors': lim, 'cache': (draw(st.sampled_from([True] * 7 + ['file'])) if cached else False),
                 'rseed': draw(st.integers(0, 2 ** 32 - 1)), 'ignp': draw(st.sampled_from([False] * 7 + [True])),
                 'salt': draw(st.integers(0, 5)), 'beh': beh, 'ops': ops,
-                'at_tip': draw(st.sampled_from([False, False, False, True])) if cached else False}
+                'at_tip': draw(st.sampled_from([False, False, False, True])) if cached else False,
+                'spent_unknown': draw(st.sampled_from([False, False, False, True])) if cached else False}
     return plans()
 
 
